@@ -17,6 +17,8 @@ def cases(tier, seed):
             if tier == "quick" and m in (3,) and k in (1.0, 3.0, 123.456789012345):
                 continue
             yield {"kind": "cpp-filter", "m": m, "k": k}
+    for k, kt in c06.KS_TYPED[:3]:
+        yield {"kind": "cpp-filter", "m": 2, "k": k, "ktype": kt}
     for shape, sens in (((2, 1, 1), (1, 2)), ((3, 1, 0), (2, 1, 3))):
         yield {"kind": "cpp-discard", "shape": list(shape), "sens": list(sens), "k": 5.0, "m": 0, "seed": seed}
 
@@ -55,7 +57,7 @@ def eval_helper(case):
 
 def eval_filter(case):
     from fv.props import c06
-    m, k = case["m"], case["k"]
+    m, k = case["m"], c06.typed(case["k"], case.get("ktype"))
     d = c06.identity_def(m)
     names = sorted(d["state"])
     disabled = k is None or k == 0.0
